@@ -137,10 +137,30 @@ def object_specs(rng, order, n, signed_func):
     return specs
 
 
+def _inversion_witness(regime):
+    """smallest hand-made member of the sub-domain first, so that the first replay file of a failing run is readable"""
+    one_mapper = [{"kind": "mapper", "shape": (3, 3), "sub": 1, "seed": 0, "distort": 0.0, "reg": 1.0}]
+    if regime.startswith("nonsquare"):
+        m = np.ones((3, 5), dtype=bool)
+        m[1, 1] = m[1, 2] = False
+        k = np.array([[1.0, 2.0, 3.0]]) if regime.endswith("nonneg") else np.array([[1.0, -2.0, 3.0]])
+        return {"mask": m, "data": np.ones((3, 5)), "noise": np.ones((3, 5)), "kernel": k, "objects": one_mapper, "diag": 1e-3}
+    m = np.ones((3, 4), dtype=bool)
+    m[1, 1] = m[1, 2] = False
+    case = {"mask": m, "data": np.ones((3, 4)), "noise": np.ones((3, 4)), "objects": one_mapper, "diag": 1e-3,
+            "kernel": np.array([[0.0, 0.0, 0.0], [1.0, 2.0, 1.0], [0.0, 0.0, 0.0]])}
+    if regime == "signed-square":
+        case["kernel"] = np.array([[0.0, 0.0, 0.0], [1.0, -2.0, 1.0], [0.0, 0.0, 0.0]])
+    if regime == "signed-func":
+        case["objects"] = one_mapper + [{"kind": "func", "matrix": np.array([[-1.0], [1.0]])}]
+    return case
+
+
 def _gen_inversion(regime):
     def gen(rng, tier):
         shapes = kshapes_for(regime)
         k = 0
+        yield _inversion_witness(regime)
         for rep in range(gens.budget(tier, 50, 500)):
             for order in ORDERS:
                 if regime == "signed-func" and "f" not in order:
